@@ -13,7 +13,7 @@ from .. import build as B
 PROPERTY = "C14"
 LEVEL = "exploration"
 VARIANTS = ["fast"]
-RULE = ("layouts = all sequences of <=2 (quick) / <=3 (thorough) blocks from 19 block kinds (x LF/CRLF), probe = 9 kinds x 3 column offsets, "
+RULE = ("layouts = all sequences of <=2 (quick) / <=3 (thorough) blocks from 21 block kinds (x LF/CRLF), probe = 9 kinds x 3 column offsets, "
         "probe in the main file or inside an included file; a case = (layout, line ending, probe kind, column); non-trivial = layout has "
         "at least one block; distinct by case")
 ASSUMPTIONS = [
@@ -41,6 +41,9 @@ BLOCKS = {
     "inactive-define-3lines": ["#ifdef NOPE", "#define Z(a) a \\", "  + 1 \\", "  + 2", "#endif"],
     "inactive-else-define-2lines": ["#define T2", "#ifdef T2", "a2 = 1;", "#else", "#define W(a) a \\", " + 1", "#endif"],
     "inactive-directives": ["#ifdef NOPE", "#define Q 1", "#undef Q", '#include "/nonexistent.hpp"', "/* c", " d */", "#endif"],
+    # a macro CALL spread over several lines (line breaks at argument boundaries)
+    "multiline-macro-call": ["#define M3(a,b,c) a + b + c", "v = M3(1,", "  2,", "  3);"],
+    "multiline-macro-call-open": ["#define P2(a,b) [a, b]", "w = P2(", "  1,", "  2", ");"],
     "statement": ["s = 1;"],
     "include": ['#include "/inc_a.hpp"'],
     "include-nested": ['#include "/inc_b.hpp"'],
